@@ -74,6 +74,7 @@ fn run() {
     let mut was_watching = false;
     let mut candidate: Option<(Certificate, Instant)> = None;
     let mut certified_at: Option<Instant> = None;
+    let mut cpu_at_change: u64 = 0;
     loop {
         std::thread::sleep(Duration::from_millis(20));
         let w = WATCHING.load(SeqCst);
@@ -89,12 +90,21 @@ fn run() {
             case_start = now;
             last_len = usize::MAX;
             last_change = now;
+            cpu_at_change = subject_cpu_ticks();
         }
         let len = ilog::len();
         if len != last_len {
             last_len = len;
             last_change = now;
             candidate = None;
+            cpu_at_change = subject_cpu_ticks();
+        } else if !ilog::overflowed() {
+            // no event at all: is the subject nevertheless burning CPU?  (3 s of CPU time without one system call)
+            let ticks = subject_cpu_ticks().saturating_sub(cpu_at_change);
+            let hz = unsafe { libc::sysconf(libc::_SC_CLK_TCK) }.max(1) as u64;
+            if ticks >= 3 * hz {
+                crate::run::fatal_spin(ticks as f64 / hz as f64);
+            }
         }
         if let Some(t) = certified_at {
             // a certified deadlock was broken by killing the descendants; if the subject is still stuck, release our own pipe ends
@@ -138,4 +148,21 @@ fn run() {
             crate::run::fatal_inconclusive("case did not end after its descendants were killed (no deadlock certificate)");
         }
     }
+}
+
+/// utime+stime (clock ticks) of the subject thread(s) of this process
+fn subject_cpu_ticks() -> u64 {
+    let mut total = 0;
+    for tid in ilog::subject_tids() {
+        if let Ok(s) = std::fs::read_to_string(format!("/proc/self/task/{}/stat", tid)) {
+            if let Some(r) = s.rfind(')') {
+                let f: Vec<&str> = s[r + 1..].split_whitespace().collect();
+                // fields after the command name: state(0) ... utime is the 12th, stime the 13th
+                if f.len() > 12 {
+                    total += f[11].parse::<u64>().unwrap_or(0) + f[12].parse::<u64>().unwrap_or(0);
+                }
+            }
+        }
+    }
+    total
 }
